@@ -310,27 +310,63 @@ def strictEq : Val → Val → Bool
   | .host a, .host b => a == b
   | _, _ => false
 
-/-- `undefined` and `NaN` as operands of arithmetic -/
-def isNanLike : Val → Bool
-  | .undef => true
-  | .nan => true
+/-- `ToNumber` on the values of the fragment: `some none` = `NaN`, `none` = outside the fragment (functions, errors).
+    Every string of the fragment comes from `typeof` or a concatenation with such a string, hence is not numeric. -/
+def toNum : Val → Option (Option Int)
+  | .num n => some (some n)
+  | .undef => some none
+  | .nan => some none
+  | .null => some (some 0)
+  | .bool b => some (some (if b then 1 else 0))
+  | .str _ => some none
+  | _ => none
+
+def numVal : Option Int → Val
+  | some n => .num n
+  | none => .nan
+
+/-- `ToString` for concatenation -/
+def toStr : Val → Option String
+  | .str s => some s
+  | .num n => some (toString n)
+  | .nan => some "NaN"
+  | .undef => some "undefined"
+  | .null => some "null"
+  | .bool b => some (if b then "true" else "false")
+  | _ => none
+
+def isStr : Val → Bool
+  | .str _ => true
   | _ => false
 
-def isNumLike : Val → Bool
-  | .num _ => true
-  | v => isNanLike v
-
-/-- arithmetic on numbers (`undefined` counts as `NaN`); other operand kinds are outside the fragment -/
+/-- `+ - <` with the coercions of primitives; functions as operands are outside the fragment -/
 def binVal (op : BinOp) (a b : Val) : M Val :=
-  match op, a, b with
-  | .seq, a, b => retM (.bool (strictEq a b))
-  | .add, .num x, .num y => retM (.num (x + y))
-  | .sub, .num x, .num y => retM (.num (x - y))
-  | .lt, .num x, .num y => retM (.bool (x < y))
-  | op, a, b =>
-    if isNumLike a && isNumLike b && (op == .add || op == .sub || op == .lt) then
-      retM (if op == .lt then .bool false else .nan)
-    else stuckM "binVal"
+  match op with
+  | .seq => retM (.bool (strictEq a b))
+  | .add =>
+    if isStr a || isStr b then
+      match toStr a, toStr b with
+      | some x, some y => retM (.str (x ++ y))
+      | _, _ => stuckM "binVal"
+    else
+      match toNum a, toNum b with
+      | some (some x), some (some y) => retM (.num (x + y))
+      | some _, some _ => retM .nan
+      | _, _ => stuckM "binVal"
+  | .sub =>
+    match toNum a, toNum b with
+    | some (some x), some (some y) => retM (.num (x - y))
+    | some _, some _ => retM .nan
+    | _, _ => stuckM "binVal"
+  | .lt =>
+    match a, b with
+    | .str x, .str y => retM (.bool (x < y))
+    | _, _ =>
+      match toNum a, toNum b with
+      | some (some x), some (some y) => retM (.bool (x < y))
+      | some _, some _ => retM (.bool false)
+      | _, _ => stuckM "binVal"
+  | _ => stuckM "binVal"
 
 /-- scope record of a block: all lexical names uninitialised -/
 def lexScope (ds : List (String × Bool)) : Scope := fun x =>
@@ -369,25 +405,28 @@ def eval : DE → Env → M Val
   | .var x _, env => getVar env x
   | .assign x _ e, env => bindM (eval e env) (fun v => bindM (setVar env x v) (fun _ => retM v))
   | .postinc x _, env => bindM (getVar env x) (fun v =>
-      match v with
-      | .num n => bindM (setVar env x (.num (n + 1))) (fun _ => retM (.num n))
-      | .undef => bindM (setVar env x .nan) (fun _ => retM .nan)
-      | .nan => bindM (setVar env x .nan) (fun _ => retM .nan)
-      | _ => stuckM "postinc")
+      match toNum v with
+      | some (some n) => bindM (setVar env x (.num (n + 1))) (fun _ => retM (.num n))
+      | some none => bindM (setVar env x .nan) (fun _ => retM .nan)
+      | none => stuckM "postinc")
   | .call f args, env => bindM (eval f env) (fun fv => bindM (evalL args env) (fun vs =>
       match fv with
       | .host name => hostCall H name vs
       | .clo _ _ _ => K fv vs
       | _ => throwV (.err "TypeError")))
-  | .bin .land a b, env => bindM (eval a env) (fun v => if truthy v then eval b env else retM v)
-  | .bin .lor a b, env => bindM (eval a env) (fun v => if truthy v then retM v else eval b env)
-  | .bin op a b, env => bindM (eval a env) (fun x => bindM (eval b env) (fun y => binVal op x y))
+  | .bin op a b, env =>
+      match op with
+      | .land => bindM (eval a env) (fun v => if truthy v then eval b env else retM v)
+      | .lor => bindM (eval a env) (fun v => if truthy v then retM v else eval b env)
+      | op => bindM (eval a env) (fun x => bindM (eval b env) (fun y => binVal op x y))
   | .not e, env => bindM (eval e env) (fun v => retM (.bool (!truthy v)))
-  | .typeof (.var x _), env => fun s =>
-      match findScope s.heap env x with
-      | none => .ok (.str "undefined") s
-      | some _ => bindM (getVar env x) (fun v => retM (.str (typeofVal v))) s
-  | .typeof e, env => bindM (eval e env) (fun v => retM (.str (typeofVal v)))
+  | .typeof e, env =>
+      match e with
+      | .var x _ => fun s =>
+          match findScope s.heap env x with
+          | none => .ok (.str "undefined") s
+          | some _ => bindM (getVar env x) (fun v => retM (.str (typeofVal v))) s
+      | e => bindM (eval e env) (fun v => retM (.str (typeofVal v)))
   | .cond c a b, env => bindM (eval c env) (fun v => if truthy v then eval a env else eval b env)
   | .comma l, env => bindM (evalL l env) (fun vs => retM (vs.getLast?.getD .undef))
   | .group e, env => eval e env
